@@ -188,6 +188,28 @@ NOTES = {
     "C17_m5": ("a visit_Attribute shortcut does not walk below two consecutive plain attribute accesses", "x.Op(..).a.b.Op2(..): operator calls beneath a double attribute"),
     "C10_m5": ("the parameterized-call branch tests `found_type is not None` instead of `!= Any`", "obj.attr[param](args) on an untyped receiver"),
     "C12_m5": ("TypeError retry without title (as C12_m3)", "an executor raising TypeError, no title"),
+    "C01_m6": ("visit_ListComp/visit_GeneratorExp merged and aliased as visit_SetComp: a set comprehension is desugared like a list comprehension",
+               "a lambda containing a set comprehension, data with repeated values"),
+    "C13_m6": ("Where runs check_ast on the user lambda before type following (Select/SelectMany unchanged)",
+               "a typed method with a tuple/list/dict default called at the top level of a Where filter"),
+    "C02_m6": ("make_args_unique pops its rename stack with del stack[-len(mapping):] (as C02_m1)", "a zero-parameter called lambda before a use of the enclosing parameter"),
+    "C12_m6": ("value_async wraps the executor call in try/except (AttributeError, IndexError) -> ValueError", "an executor that itself raises IndexError or AttributeError"),
+    "C03_m6": ("rewrite_func_as_lambda drops every AnnAssign as a no-op statement", "a two-statement def whose first statement is an annotated assignment used by the return"),
+    "C19_m6": ("flattened guard: `unary and name == 'len' or name == 'Count'`", "Count with another arity or with keywords"),
+    "C04_m6": ("visit_ListComp visits every generator's iterable before pushing the targets", "a multi-for comprehension whose later iterable mentions an earlier loop variable that is also a global"),
+    "C17_m6": ("positional arguments of a rewritten operator call are visited but the replaced nodes are dropped", "a method-form operator call directly as a positional argument of another one"),
+    "C05_m6": ("_inner_binders sees only flat comprehension targets", "a helper comprehension with a nested tuple target, call-site argument named like an inner target"),
+    "C15_m6": ("extract_metadata unwinds stacked wrappers in a loop reading the dictionary of the outermost one", ">= 2 directly stacked wrappers"),
+    "C06_m6": ("arg_names = sig_arg_names[:len(arg_values)] computed once after merging keywords", "a call leaving a gap in signature order: Hit(1, z=3)"),
+    "C14_m6": ("visit_Subscript: the dict branch became an elif of the int/bool branch (as C14_m2)", "integer-keyed dictionaries"),
+    "C07_m6": ("has_lambda_arg from the call as written (as C07_m3)", "Where(filter=lambda ...) inside a lambda"),
+    "C20_m6": ("the hash is taken of remove_empty_metadata(a)", "queries differing only by empty MetaData wrappers"),
+    "C08_m6": ("get_inherited reads __orig_bases__ from the class's own __dict__", "two-level inheritance with a non-generic leaf class"),
+    "C18_m6": ("the Dict branch accepts any constant selector (as C18_m4)", "a dictionary literal indexed by None/float/bytes"),
+    "C09_m6": ("process_method_callbacks gets the defining class (as C09_m4)", "inherited method under a decorated subclass"),
+    "C16_m6": ("remove_empty_metadata keeps an empty MetaData node that carries _q_metadata", "QMetaData directly on a stream whose top node is an empty MetaData({})"),
+    "C10_m6": ("IfExp branch compatibility uses issubclass before the equality test", "a conditional with a lambda or abs/len as a branch (typing.Callable is not a class)"),
+    "C11_m6": ("the cleaner skips its protective copy for nodes carrying _q_metadata", "empty MetaData below, QMetaData copy sharing the args list, value() on the copy's side"),
     "C20_m2": ("the dump is encoded with errors='replace': non-ASCII characters collapse to '?'",
                "two queries differing in one non-ASCII character at the same position"),
 }
@@ -197,6 +219,12 @@ REBASED = ("patch re-created by hand on /repo HEAD (the same change) after later
 
 # name -> one sentence on how the evaluation of this change went over time (only where there is something to say)
 HISTORY = {
+    "C13_m6": MISSED + "running the default/capture cases through Select, Where and SelectMany",
+    "C01_m6": MISSED + "set and dict comprehensions in generated programs, datasets with repeated values",
+    "C03_m6": MISSED + "def bodies with leading statements of every kind next to the true no-ops",
+    "C04_m6": MISSED + "multi-for comprehensions whose later iterables mention earlier targets that collide with captured names",
+    "C05_m6": MISSED + "helpers whose comprehensions have nested unpacking targets",
+    "C08_m6": MISSED + "two-level inheritance with a non-generic leaf class in the class-model generators",
     "C18_m5": MISSED + "computed constant selectors (+n, ~n, not n, -(-n)) in C18's selector corpus",
     "C05_m5": MISSED + "call sites whose names are the helper's parameter names permuted or wrapped in expressions, with an inner call left un-inlined",
     "C06_m5": "the change is in the capture code: missed by C06 (which starts from ASTs) and at first by C01, caught by C04; C01's programs now use module globals only inside generator expressions",
